@@ -15,6 +15,31 @@ CLAIMED = {
     text='Decides for every JSON value at once that nothing but DeserializationError (IdentityError for batches) can leave a from_json: each raising site (explicit raises, KeyError of subscripts, constructor assertions analysed in the caller\'s context with falsifying assignments as witnesses) is routed through the handlers; every protocol member is dominated by a type guard within the specification table; batch append/extend perform no write before the last possible IdentityError.',
     note='Trusted: python ast, pjx engine, the admitted-type table (id: int|str|null, method: str, params: list|dict, code: int, message: str). Assumes from_json receives decoded JSON. TypeError/AttributeError from using a non-container as a container are covered by the CONTAINER-GUARD dominance rule rather than by the escape analysis.',
     ref='DESIGN.md §3 C06'),
+ 'C02': dict(
+    technique='static analysis: CFG dominance + typestate (invocation counting over normal and exception edges) + structural batch-mapping rules over both dispatcher halves',
+    text='Decides on the code shape that a response object is built only on the not-a-notification edge and carries the id of the request being handled (success and error paths), that the bound method is invoked exactly once on every returning path and never more than once on a failing one, that the batch branch runs the same middleware-wrapped handler once per element of the parsed batch with an order-preserving join, only after the whole document was deserialised and the strict size guard passed, that exactly the UNSET results are filtered and an all-notification batch yields nothing.',
+    note='Trusted: python ast, pjx engine, asyncio.gather returns results in argument order. Assumes middlewares call their handler at most once. Not decided: execution counts inside user methods; id value identity across JSON typing is covered only in the sense that ids are copied, never transformed.',
+    ref='DESIGN.md §3 C02'),
+ 'C03': dict(
+    technique='static analysis: handler-inflow table from the exception-escape analysis compared with the JSON-RPC error table; taint rule for exception data; class-constant and wire-shape rules',
+    text='Extracts the exception-class → error-class table from the handlers of dispatch and the per-element chain (which classes can flow into which handler is computed by the escape analysis, so shadowing by handler order is seen) and compares it with the JSON-RPC 2.0 table; checks the six standard codes, that the invocation is outside the -32602 try, that protocol errors are re-raised/kept as the same object, that nothing derived from an unexpected exception reaches the error constructor, and that error data is emitted iff set by identity test.',
+    note='Trusted: python ast, pjx engine, summary that json.loads raises JSONDecodeError/ValueError. Not decided: whether a given text is JSON.',
+    ref='DESIGN.md §3 C03'),
+ 'C09': dict(
+    technique='static analysis: cycle/dominance rules and typestate over the CFG with exception edges of retry/retry_async; abstract interpretation for None-dereference; structural rules for backoff generators and strategy selection',
+    text='Decides for every outcome sequence that each repetition of the attempt consumes a fresh next(delays) tested by identity (so at most attempts+1 sends), that exactly one sleep(delay) separates consecutive sends with none before the first or after the last, that the re-send condition is exactly is_error ∧ codes ∧ code∈codes or an except over the strategy\'s exception tuple, that the last response / the caught exception is what the caller gets, that the None returned for notifications is never dereferenced, that backoff generators are bounded by attempts with jitter inside the cap, and that a per-request strategy replaces the client one iff not UNSET.',
+    note='Trusted: python ast, pjx engine. Not decided: the numeric delay values (periodic/exponential/Fibonacci), which are runtime quantities.',
+    ref='DESIGN.md §3 C09'),
+ 'C12': dict(
+    technique='static analysis: structural fold recognition (middleware chain, error-handler loop) + CFG reachability (handlers only from except edges)',
+    text='Decides that the handler chain is partial(middleware, handler=chain) folded over reversed(middlewares) from the own per-element handler, that both dispatch branches call that one attribute once per element, that error handlers run generic-then-per-code from one chain() evaluated once, each receiving the previous result, whose last result is what the response carries, reachable only from except edges, not skipped for notifications, never touched by document-level rejections.',
+    note='Trusted: python ast, pjx engine. Recognised fold forms are listed in DESIGN.md; another form yields ANALYSIS-ERROR, not a verdict. Not decided: behaviour of user middlewares.',
+    ref='DESIGN.md §3 C12'),
+ 'C19': dict(
+    technique='static analysis: typestate over the CFG with exception edges (BaseException out of the traced call) of both traced wrappers + decorator-order rule',
+    text='Decides for every outcome including BaseException that each attempt produces begin, then exactly one of end (on return) or error followed by re-raise of the same exception, in tracer configuration order with one shared trace context, and that tracing is applied inside retrying so every attempt is traced.',
+    note='Trusted: python ast, pjx engine. Assumes tracer callbacks do not raise.',
+    ref='DESIGN.md §3 C19'),
 }
 
 NA_REASON = 'check under construction (static rules designed in DESIGN.md section 3, not yet built)'
